@@ -59,9 +59,13 @@ func H_C03_FrostKeygenTamper() {
 		vsym.Assume(err == nil)
 		hs[id] = h
 	}
-	tamper := vsym.Choose("tamper", 11)
+	tamper := vsym.Choose("tamper", 12)
 	var bBroadcast2 *protocol.Message
 	victimOnly := vsym.Choose("scope", 2) == 1 // tampered copy to a only, or to everybody
+	shortCommitment = nil
+	if tamper == 11 {
+		prepareShortRID(hs["c"])
+	}
 	for step := 0; step < 10; step++ {
 		var batch []*protocol.Message
 		for _, id := range c03IDs {
@@ -91,9 +95,24 @@ func H_C03_FrostKeygenTamper() {
 					}
 				}
 			}
+			if m.From == "c" && m.RoundNumber >= 3 {
+				// the deviating party also echoes, to each victim, the broadcast hash that victim expects
+				for _, id := range []party.ID{"a", "b"} {
+					if exp := hs[id].VerifBroadcastHash(m.RoundNumber - 1); exp != nil {
+						mm := *out[id]
+						mm.BroadcastVerification = exp
+						out[id] = &mm
+					}
+				}
+			}
 			for _, id := range c03IDs {
 				if hs[id].CanAccept(out[id]) {
-					hs[id].Accept(out[id])
+					if id == "c" { // the deviating party may break itself: not our concern
+						h, msg := hs[id], out[id]
+						_ = vsym.ExpectPanic(func() { h.Accept(msg) })
+					} else {
+						hs[id].Accept(out[id])
+					}
 				}
 			}
 			if tamper == 10 && m.From == "c" && m.RoundNumber == 2 && m.Broadcast && bBroadcast2 != nil {
@@ -136,11 +155,34 @@ func H_C03_FrostKeygenTamper() {
 	}
 }
 
+var shortCommitment hash.Commitment
+
+// prepareShortRID makes c commit to a malformed (16-byte) chain key contribution in round 2 and open it honestly in
+// round 3 (a deviation that spans two rounds).
+func prepareShortRID(h *protocol.MultiHandler) {
+	r2, ok := h.VerifCurrentRound().(*round2)
+	vsym.Assume(ok)
+	short := types.RID(vsym.Bytes("shortrid", 16, 16))
+	vsym.Assume(short[0] != 0)
+	com, decom, err := r2.HashForID("c").Commit(short)
+	vsym.Assume(err == nil)
+	r2.ChainKeys["c"] = short
+	r2.ChainKeyDecommitment = decom
+	shortCommitment = com
+}
+
 // tamperMessage returns the altered copy of c's message m for the chosen catalogue entry, or nil if m is not the target.
 func tamperMessage(hs map[party.ID]*protocol.MultiHandler, m *protocol.Message, tamper, t int) *protocol.Message {
 	group := curve.Secp256k1{}
 	cRound := hs["c"].VerifCurrentRound()
 	switch {
+	case m.RoundNumber == 2 && m.Broadcast && tamper == 11:
+		// consistent two-round deviation (state prepared by prepareShortRID before any delivery)
+		body := &broadcast2{Phi_i: polynomial.EmptyExponent(group), Sigma_i: zksch.EmptyProof(group)}
+		vsym.Assume(cbor.Unmarshal(m.Data, body) == nil)
+		vsym.Assume(shortCommitment != nil)
+		body.Commitment = shortCommitment
+		return remarshal(m, body)
 	case m.RoundNumber == 2 && m.Broadcast && tamper <= 5:
 		body := &broadcast2{Phi_i: polynomial.EmptyExponent(group), Sigma_i: zksch.EmptyProof(group)}
 		vsym.Assume(cbor.Unmarshal(m.Data, body) == nil)
